@@ -2,6 +2,7 @@ package interp
 
 import (
 	"fmt"
+	"strings"
 	"sync"
 
 	"gosx/smt"
@@ -260,6 +261,9 @@ func (in *Interp) Assert(prop string, cond *smt.Term, msg string) {
 		r, m = in.Sol.Check(neg, true, in.modelVars())
 	}
 	in.Stats.AssertQueries++
+	if in.CrossSink != nil && (r == smt.Unsat || r == smt.Sat) {
+		in.CrossSink(in.crossScript(neg), r.String())
+	}
 	switch r {
 	case smt.Unsat:
 		in.Stats.Discharged++
@@ -276,4 +280,33 @@ func (in *Interp) Assert(prop string, cond *smt.Term, msg string) {
 		in.Stats.Unknown++
 		panic(inconclusive{"unknown on assertion " + msg})
 	}
+}
+
+// crossScript renders the current assertion query (path condition and negated obligation) as a
+// self-contained SMT-LIB2 script, for re-discharging with other solvers.
+func (in *Interp) crossScript(neg *smt.Term) string {
+	var b strings.Builder
+	seen := map[int]bool{}
+	var vars []*smt.Term
+	for _, t := range in.P.pc {
+		smt.CollectVars(t, seen, &vars)
+	}
+	if !neg.IsConst() {
+		smt.CollectVars(neg, seen, &vars)
+	}
+	for _, v := range vars {
+		if v.W == 0 {
+			fmt.Fprintf(&b, "(declare-const |%s| Bool)\n", v.Name)
+		} else {
+			fmt.Fprintf(&b, "(declare-const |%s| (_ BitVec %d))\n", v.Name, v.W)
+		}
+	}
+	for _, t := range in.P.pc {
+		fmt.Fprintf(&b, "(assert %s)\n", t.SMT())
+	}
+	if !neg.IsConst() {
+		fmt.Fprintf(&b, "(assert %s)\n", neg.SMT())
+	}
+	b.WriteString("(check-sat)\n")
+	return b.String()
 }
